@@ -4,6 +4,7 @@ import (
 	"fmt"
 	"go/token"
 	"go/types"
+	"strings"
 
 	"dtnverif/core"
 
@@ -127,6 +128,7 @@ func C19(p *core.Program, r *core.Report) {
 			}
 		})
 	}
+	checkAdvertisedVectorReplaced(p, r)
 	r.Min("writers of Prophet.predictabilities", 3)
 	r.Count("writers of Prophet.predictabilities", nUpd)
 
@@ -262,4 +264,53 @@ func appendedSender(c *ssa.Call) ssa.Value {
 		}
 	}
 	return nil
+}
+
+// checkAdvertisedVectorReplaced: "advertised predictability" is what the peer's LAST summary vector said. The vector
+// kept per peer is therefore replaced as a whole by every received one; an entry written into a kept vector (a merge)
+// lets a value the peer no longer advertises outlive its vector and keep steering bundles to that peer.
+func checkAdvertisedVectorReplaced(p *core.Program, r *core.Report) {
+	isPeerVectors := func(v ssa.Value) bool {
+		ld, ok := core.Strip(v).(*ssa.UnOp)
+		return ok && core.IsField(ld.X, routingPkg, "Prophet", "peerPredictabilities")
+	}
+	nRepl := 0
+	var merges []string
+	for _, fn := range p.RepoFuncs() {
+		if fn.Pkg != p.Pkg(routingPkg) || fn.Blocks == nil {
+			continue
+		}
+		core.EachInstr(fn, func(in ssa.Instruction) {
+			mu, ok := in.(*ssa.MapUpdate)
+			if !ok {
+				return
+			}
+			if isPeerVectors(mu.Map) {
+				nRepl++
+				return
+			}
+			// a write into a map that was looked up in peerPredictabilities
+			inner := core.DependsOn(mu.Map, func(v ssa.Value) bool {
+				lk, ok := v.(*ssa.Lookup)
+				return ok && isPeerVectors(lk.X)
+			})
+			if inner {
+				merges = append(merges, p.Pos(mu.Pos()))
+			}
+		})
+	}
+	nn := p.Func(routingPkg, "Prophet", "NotifyNewBundle")
+	// every path of NotifyNewBundle that reaches the transitive update has replaced the peer's vector before
+	okBefore := true
+	for _, tc := range core.CallsTo(nn, routingPkg+".Prophet.transitivity") {
+		if !core.MustPassBefore(tc, func(i ssa.Instruction) bool {
+			mu, ok := i.(*ssa.MapUpdate)
+			return ok && isPeerVectors(mu.Map)
+		}) {
+			okBefore = false
+		}
+	}
+	r.Count("replacements of a peer's summary vector", nRepl)
+	r.Min("replacements of a peer's summary vector", 1)
+	r.Check(len(merges) == 0 && okBefore, "advertised/"+fname(nn)+"/vector-replaced", "a received summary vector replaces the one kept for that peer on every path (before the transitive update uses it), and no entry is ever written into a kept vector", p.Pos(nn.Pos()), "", "merge into a kept vector at "+strings.Join(merges, ", ")+fmt.Sprintf("; replaced on every path before transitivity: %v", okBefore)+": a destination the peer no longer advertises keeps its old value and bundles are still offered to that peer")
 }
